@@ -83,9 +83,10 @@ def finding_key(req, obs, detail):
     m = re.match(r"FAIL:(assignment|increment|out/inout argument) writes to a non-lvalue per the declarations: (\S+)$", d)
     if m:
         path = m.group(2)
-        # an element of a value that is not an lvalue (function result, a + b, constructor, cast): ArraySubscript is typed
+        # an element of a value that is not an lvalue (function result, a + b, constructor, cast, a swizzle naming a
+        # component twice): ArraySubscript is typed
         # as an lvalue whatever its operand is
-        if re.match(r"(call|op|ctor|cast|tern|lit)(>mem|>swz|>mswz)*>idx\[[avm]\]", path):
+        if re.search(r"(^(call|op|ctor|cast|tern|lit)|\[dup\])(>mem|>swz|>mswz)*>idx\[[avm]\]", path):
             return "write through a subscript of an rvalue (ArraySubscript is always typed as an lvalue)"
         return "write to a non-lvalue per the declarations: %s" % path
     m = re.match(r"FAIL:increment of a non-numeric operand: (\S+)$", d)
@@ -162,6 +163,43 @@ def search(ctx):
             reqs.append("C03.prog\t%s\t%s\t(ret %s)\tany" % (env, ret, x))
         for t in VARS:
             reqs.append("C03.prog\t%s\t-/s.Float32\t(init %s %s)\tany" % (env, t, x))
+    reqs += search_ext()
+    return reqs
+
+
+XOTHERS = "S(q:-/s.Int32,v:-/v.Float32.3,a:-/o.1,m:-/m.Float32.2.2);A(-/s.Float32,2);A(c/s.Float32,2);A(-/v.Float32.3,2)"
+XVARS = ["-/s.Float32", "-/v.Float32.3", "-/m.Float32.2.2", "-/o.0", "-/o.1", "-/o.3", "c/s.Float32", "c/v.Float32.3", "c/m.Float32.2.2",
+         "c/o.0", "-/o.2", "g:c/v.Float32.3", "g:c/m.Float32.2.2", "g:c/o.0", "p:c/m.Float32.2.2", "s:-/o.0", "-/s.Int32", "-/s.Bool"]
+XFUNCS = "0:0:-/v.Float32.3:;1:0:-/o.0:;2:1:-/s.Int32:out/-/s.Float32;3:1:-/s.Int32:inout/-/v.Float32.2;4:0:-/m.Float32.2.2:"
+XPROJ = ["(mem %s x)", "(mem %s xy)", "(mem %s xx)", "(mem %s q)", "(mem %s v)", "(mem %s a)", "(mem %s m)", "(mem %s _m00)",
+         "(mem %s _m00_m11)", "(mem %s _m00_m00)", "(idx %s (lit IntLiteral))"]
+
+
+def search_ext():
+    """the extended language: reads and writes (assignment, compound assignment, ++, out / inout arguments of a user and of an
+    intrinsic function) through projection chains of length 1 and 2 on every kind of base, constructors, aggregates"""
+    env = XOTHERS + "\t" + ",".join(XVARS) + "\t" + XFUNCS
+    bases = ["(var %d)" % i for i in range(len(XVARS))] + ["(call 0)", "(call 1)", "(call 4)", "(bin Add (var 1) (var 1))",
+                                                          "(ctor -/v.Float32.3 (var 1))", "(cast -/v.Float32.3 (var 1))"]
+    chains = []
+    for b in bases:
+        one = [p % b for p in XPROJ]
+        chains += one
+        for c in one:
+            chains += [p % c for p in XPROJ[:3] + XPROJ[-1:]]
+    reqs = []
+    for c in chains:
+        for body in ("(expr %s)" % c, "(expr (bin Assignment %s (lit IntLiteral)))" % c, "(expr (bin SumAssignment %s (lit IntLiteral)))" % c,
+                     "(expr (un PrefixIncrement %s))" % c, "(expr (call 2 %s))" % c, "(expr (call 3 %s))" % c,
+                     "(expr (icall sincos (var 0) %s (var 0)))" % c):
+            reqs.append("C03.progx\t%s\tvoid\t(block %s)\tany" % (env, body))
+    for t in ("-/s.Float32", "-/v.Float32.3", "-/m.Float32.2.2", "-/o.0"):
+        for a in ("(var 0)", "(var 1)", "(var 2)", "(var 3)", "(mem (var 1) xy)"):
+            reqs.append("C03.progx\t%s\tvoid\t(block (expr (ctor %s %s)))\tany" % (env, t, a))
+            reqs.append("C03.progx\t%s\tvoid\t(block (expr (ctor %s %s %s)))\tany" % (env, t, a, a))
+            reqs.append("C03.progx\t%s\tvoid\t(block (decl %s (agg %s %s)))\tany" % (env, t, a, a))
+            reqs.append("C03.progx\t%s\tvoid\t(block (decl %s (agg %s %s %s)))\tany" % (env, t, a, a, a))
+            reqs.append("C03.progx\t%s\t%s\t(block (if (var 17) (ret %s)))\tany" % (env, t, a))
     return reqs
 
 
@@ -192,7 +230,7 @@ SPEC = {
         "elab_rejects_const_out_arg_chain", "elab_rejects_rvalue_write_chain_partial",
         "elab_rejects_rvalue_out_arg_chain_partial",
         "assignment_operands", "binary_operands_equal", "binop_rules",
-        "elab_assign_exact", "elab_arith_exact", "elab_call_args_exact",
+        "elab_assign_exact", "elab_arith_exact", "elab_call_args_exact", "elab_intrinsic_call_exact",
         "swizzle_in_range", "matrix_swizzle_in_range", "member_of_struct", "ctor_slots_exact",
         "const_struct_member_write_accepted", "rvalue_subscript_write_accepted", "const_array_assignment_accepted"]],
     "harness": "c03",
